@@ -261,7 +261,10 @@ class BlockSeries:
             if isinstance(order, slice):
                 if order.stop is None:
                     raise IndexError("Cannot evaluate infinite series")
-                if isinstance(order.start, int) and order.start < 0:
+                if any(
+                    isinstance(bound, (int, np.integer)) and bound < 0
+                    for bound in (order.start, order.stop)
+                ):
                     raise IndexError("Cannot evaluate negative order")
             elif isinstance(order, (int, np.integer, list, np.ndarray)) and np.any(
                 np.asarray(order) < 0
